@@ -95,6 +95,13 @@ async def agt_{i}(nxt, pre):
         await nxt
         yield 1
 
+async def agv_{i}(nxt, pre):
+    got = yield 0
+    if pre:
+        await trap("pre")
+    await nxt
+    yield got
+
 async def agc_{i}(nxt, pre):
     try:
         yield 0
@@ -113,7 +120,7 @@ NS = {"types": types, "trap": trap}
 for _i in range(8):
     exec(compile(SRC.format(i=_i), "<chain%d>" % _i, "exec"), NS)
 
-AW_KINDS = ["co", "gco", "wrap", "awgen", "asend", "anext", "afor", "athrow", "aclose"]
+AW_KINDS = ["co", "gco", "wrap", "awgen", "asend", "anext", "afor", "athrow", "aclose", "asendv"]
 GEN_KINDS = ["yf"]
 GENLIKE = (types.CoroutineType, types.GeneratorType, types.AsyncGeneratorType)
 
@@ -207,6 +214,12 @@ def build(kinds, end, outer, pre):
             inner = ch.reg(NS["ag_" + d](inner, pre)).__anext__()
         elif k == "afor":
             inner = ch.reg(NS["af_" + d](ch.reg(NS["ag_" + d](inner, False)), pre))
+        elif k == "asendv":
+            # asend() of a value that is itself an (unstarted) async generator: the awaitable then refers to two
+            # objects that have an ag_frame, the generator being driven and the value being sent
+            async def decoy():
+                yield "decoy"
+            inner = _primed(ch, NS["agv_" + d](inner, pre)).asend(decoy())
         elif k == "athrow":
             inner = _primed(ch, NS["agt_" + d](inner, pre)).athrow(ZeroDivisionError())
         elif k == "aclose":
